@@ -22,6 +22,7 @@ func TestMain(m *testing.M) {
 	vh.Rule("rapid: default (ENCRYPT4) login configurations against the scripted peer: passwords of arbitrary bytes, length 0..key capacity (incl. passwords equal to / substrings of user, host, app name, '512', the program name), 0..3 remote servers with own passwords, nonces 1..64 bytes, RSA 1024/1536/2048/3072 (4096 in the thorough tier), remote servers configured from one shared slice in half the cases, packet sizes announced by the server 256..4096. Oracles: (1) the login record's password slot (offset 62, 30+1 bytes) is all zero; (2) non-interference: a second login identical except for same-length passwords produces byte-identical traffic outside the LONGBINARY ciphertexts located by the independent decoder; (3) a password >= 6 bytes that is not a substring of another configured field occurs in no written byte and in no error text of failing logins; (4) the peer decrypts (RSA-OAEP/SHA-1, empty label) every ciphertext to nonce||secret: account password (LOGPWD3 and first REMPWD3 entry), each remote password, a 32-byte session key; (5) freshness: no two ciphertexts of a login are equal (the account password is sent twice, remote passwords may equal the account's or each other's), session keys of the two logins differ; the same for 2..8 logins running concurrently; (6) control: in the plain flow the password IS in the slot. Non-trivial: password length >= 1; distinct by (password, config)")
 	vh.Assume("crypto randomness is not reproducible by seed: the case stores key and nonce, the oracles do not depend on particular random bytes; capability masks are compared semantically (the library writes the mask types in map order)")
 	vh.Rule("also: 20..1030 logins (10010 in the thorough tier) in one process, each on its own connection: no session key and no ciphertext is ever sent twice")
+	vh.Rule("also: Info.TLSEnable set (a quarter of the cases); nonces of capacity-31..capacity bytes (room for short secrets, not for the 32-byte session key): the login has to fail and nothing sent may decrypt to anything but nonce||secret")
 	vh.Main(m, "C09")
 }
 
